@@ -2,6 +2,8 @@ package main
 
 import (
 	"fmt"
+
+	"golang.org/x/tools/go/ssa"
 	"go/token"
 	"go/types"
 	"math/big"
@@ -78,6 +80,7 @@ type VC struct {
 	safetyOff bool
 	firedAnchors map[*Clause]bool
 	tablesDone   map[string]bool
+	topFn        *ssa.Function
 }
 
 func (vc *VC) note(format string, a ...interface{}) {
@@ -217,21 +220,31 @@ func (vc *VC) mergeStates(sts []*State) *State {
 			out.ghost[g] = vc.mergeVals(pcs, vals, g)
 		}
 	}
-	// locks: intersection with min mode
-	for l, m := range sts[0].locks {
-		ok := true
-		for _, s := range sts[1:] {
+	// locks: held on all incoming paths -> weakest mode; held on some paths only -> mode 3
+	// ("held on some paths": not usable as a guard, but reported by the lock-balance check)
+	allLocks := map[string]bool{}
+	for _, s := range sts {
+		for l := range s.locks {
+			allLocks[l] = true
+		}
+	}
+	for l := range allLocks {
+		m := 2
+		every := true
+		for _, s := range sts {
 			m2, has := s.locks[l]
 			if !has {
-				ok = false
-				break
+				every = false
+				continue
 			}
-			if m2 < m {
+			if m2 < m || m2 == 3 {
 				m = m2
 			}
 		}
-		if ok {
+		if every {
 			out.locks[l] = m
+		} else {
+			out.locks[l] = 3
 		}
 	}
 	// heap
